@@ -12,6 +12,9 @@ CONF = {
         {"module": "QuotaAccountingImpl", "cfg": {"quick": None, "thorough": "MC_Impl_thorough.cfg"}, "timeout": 2400},
         # schedules clause: every interleaving of the lock / apply / unlock sub-steps of concurrent delta propagations
         {"module": "MC_Locking", "cfg": "MC_Locking.cfg", "timeout": 300},
+        # plugin level (growth): which group a pod event is routed to, default-group parking, non-atomic migration cycle
+        # (MC_Routing_asfound_bug.cfg is the as-shipped design and violates ExactlyOnce: not part of the pipeline)
+        {"module": "PluginRouting", "cfg": "MC_Routing_fixed.cfg", "timeout": 300},
     ],
     "gen": [
         {"module": "Gen_QuotaAccounting", "cfg": {"quick": "Gen_C01_quick.cfg", "thorough": "Gen_C01_thorough.cfg"}, "timeout": 1200},
